@@ -98,7 +98,7 @@ HASHARR_ASSUME = ['bounded-map model with slots(v) = 1 if |v|<=32 else 1+ceil((|
 
 def hasharr_jobs(prop):
     def jobs(tier, seed):
-        q = ['--maxcap', '7', '--cases', '280', '--statecap', '200000']
+        q = ['--maxcap', '6', '--cases', '280', '--statecap', '200000']
         t = ['--maxcap', '12', '--cases', '3500', '--statecap', '3000000']
         a = t if tier == 'thorough' else q
         js = [Job('h_hasharr', 'plain', extra_srcs=REFS_HASH, args=a + (['--longchain', '1'] if (prop == 'C06' and tier == 'thorough') else [])), scale_job(tier)]
